@@ -32,6 +32,7 @@ import (
 	"github.com/lni/dragonboat/v4/internal/fileutil"
 	"github.com/lni/dragonboat/v4/internal/rsm"
 	"github.com/lni/dragonboat/v4/internal/settings"
+	"github.com/lni/dragonboat/v4/internal/verifhook"
 	"github.com/lni/dragonboat/v4/logger"
 	pb "github.com/lni/dragonboat/v4/raftpb"
 	sm "github.com/lni/dragonboat/v4/statemachine"
@@ -1169,6 +1170,7 @@ func (p *proposalShard) takeProposal(clientID uint64,
 
 func (p *proposalShard) committed(clientID uint64, seriesID uint64, key uint64) {
 	if ps := p.borrowProposal(clientID, seriesID, key, p.getTick()); ps != nil {
+		verifhook.Point(verifhook.ProposalCommittedWindow, clientID, key)
 		ps.committed()
 	}
 }
